@@ -209,8 +209,14 @@ func coqHx(b []byte) string {
 	var parts []string
 	start := 0
 	flushLit := func(end int) {
-		if end > start {
-			parts = append(parts, `hx "`+hex.EncodeToString(b[start:end])+`"`)
+		// long literals are cut into pieces: one huge string constant overflows Coq's stack
+		for start < end {
+			e := start + 800
+			if e > end {
+				e = end
+			}
+			parts = append(parts, `hx "`+hex.EncodeToString(b[start:e])+`"`)
+			start = e
 		}
 	}
 	i := 0
